@@ -12,6 +12,7 @@ package initializer
 
 //@ func initializer.buildPack
 //@ props C20
+//@ frame writes pack
 //@ let $ref = result name.ParseReference
 //@ site (v1.Object).SetName(_, $n)
 //@   witness samekey = $ref.Context().RepositoryStr() == xpkg.ParsePackageSourceFromReference($ref)
@@ -34,10 +35,19 @@ package initializer
 //@   bind $crt = as($obj, *corev1.Secret).Data["tls.crt"]
 //@ site (initializer.CertificateGenerator).Generate(_, $tmpl, $signer)
 //@   assert [C20:complete-ca-not-regenerated] !(found && len($key) != 0 && len($crt) != 0)
+//@ ghost generated bool = false
+//@ ghost stored bool = false
 //@ optional site (client.Writer).Create(_, _, $o)
 //@   assert [C20:ca-created-only-if-absent] !found
+//@   update stored = err == nil
 //@ optional site (client.Writer).Update(_, _, $o)
 //@   assert [C20:complete-ca-not-overwritten] found && !(len($key) != 0 && len($crt) != 0)
+//@   update stored = err == nil
+//@ site (initializer.CertificateGenerator).Generate(_, $tmpl, $signer) as generated
+//@   update generated = true
+// the signer handed to the certificate steps is the CA that is in the store: either the complete
+// one that was loaded, or a generated one whose write was accepted
+//@ ensures [C20:a-generated-ca-is-used-only-once-stored] err == nil && generated ==> stored
 
 //@ func (*initializer.TLSCertificateGenerator).ensureServerCertificate
 //@ props C20
@@ -120,3 +130,33 @@ package initializer
 //@ props C20
 //@ site (*resource.APIPatchingApplicator).Apply(_, _, $o)
 //@   assert [C20:lock-applied-without-packages] as($o, *v1beta1.Lock).Name == "lock" && len(as($o, *v1beta1.Lock).Packages) == 0
+
+// C20 (installer index): the map buildPack consults holds, for every installed package whose
+// source parses as an image reference (tag or digest), that source's registry/repository as a
+// key - so an installed package is found again whatever version it is pinned to - and every
+// value is the name of an installed package; each kind of package is matched against the index
+// of its own kind.
+//@ macro SRCOK(s) = name.ParseReference(s, name.WithDefaultRegistry(""))[1] == nil
+//@ macro SRC(s) = xpkg.ParsePackageSourceFromReference(name.ParseReference(s, name.WithDefaultRegistry(""))[0])
+
+//@ macro PIDX(n) = forall i :: 0 <= i && i < n && SRCOK(pl.Items[i].Spec.Package) ==> SRC(pl.Items[i].Spec.Package) in pMap
+//@ macro CIDX(n) = forall i :: 0 <= i && i < n && SRCOK(cl.Items[i].Spec.Package) ==> SRC(cl.Items[i].Spec.Package) in cMap
+//@ macro FIDX(n) = forall i :: 0 <= i && i < n && SRCOK(fl.Items[i].Spec.Package) ==> SRC(fl.Items[i].Spec.Package) in fMap
+
+//@ func (*initializer.PackageInstaller).Run
+//@ props C20
+//@ loop range pl.Items
+//@   invariant [C20:installed-providers-indexed-by-source] PIDX(done)
+//@ loop range cl.Items
+//@   invariant [C20:installed-configurations-indexed-by-source] CIDX(done) && PIDX(len(pl.Items))
+//@ loop range fl.Items
+//@   invariant [C20:installed-functions-indexed-by-source] FIDX(done) && CIDX(len(cl.Items)) && PIDX(len(pl.Items))
+//@ loop range pi.providers
+//@   invariant [C20:indexes-complete-while-building] PIDX(len(pl.Items)) && CIDX(len(cl.Items)) && FIDX(len(fl.Items))
+//@ loop range pi.configurations
+//@   invariant [C20:indexes-complete-while-building] CIDX(len(cl.Items)) && FIDX(len(fl.Items))
+//@ loop range pi.functions
+//@   invariant [C20:indexes-complete-while-building] FIDX(len(fl.Items))
+//@ site initializer.buildPack($pack, $img, $map)
+//@   assert [C20:matched-against-the-index-of-its-kind] (typeis($pack, *v1.Provider) ==> $map == pMap) && (typeis($pack, *v1.Configuration) ==> $map == cMap) && (typeis($pack, *v1.Function) ==> $map == fMap)
+//@   assert [C20:index-complete-when-consulted] (typeis($pack, *v1.Provider) ==> PIDX(len(pl.Items))) && (typeis($pack, *v1.Configuration) ==> CIDX(len(cl.Items))) && (typeis($pack, *v1.Function) ==> FIDX(len(fl.Items)))
